@@ -642,7 +642,7 @@ class Node:
         if isinstance(child, Node):
             if deep is None:
                 deep = False
-            if deep and data_id is not None or node_id is not None:
+            if deep and (data_id is not None or node_id is not None):
                 raise ValueError("Cannot set ID for deep copies.")
             source_node = child
             if source_node._tree is self._tree:
